@@ -104,7 +104,18 @@ class Prop(BaseProp):
                     os.makedirs(os.path.dirname(p), exist_ok=True)
                     with open(p, "w") as f:
                         f.write("foreign " + fn)
-            if single:
+            if single and rng.random() < 0.25:
+                # a lone input that is not called *.cmake, documented into the directory it lives in: the page goes next to it
+                src = rng.choice(["CMakeLists.txt", "BuildHelpers", "Toolchain.in"])
+                target = os.path.join(inp, src)
+                with open(target, "w") as f:
+                    f.write(cmake_text(src, rich=True))
+                tree.files[src] = cmake_text(src, rich=True)
+                if outmode not in ("prepopulated",):
+                    out_abs = inp
+                    outmode = "input-dir-itself"
+                res.count("single_inputs_not_named_cmake")
+            elif single:
                 src = rng.choice(sorted(f for f in tree.files if f.endswith(".cmake")))
                 target = os.path.join(inp, src)
             else:
@@ -145,6 +156,13 @@ class Prop(BaseProp):
                 return res
             self.judge_events(res, sb, home, out_abs, fr, wit2, "output-dir", home_state)
             res.count("audit_events", len(fr.audit) + len(fr0.audit))
+            # the sources themselves are never written to, wherever the output directory is (also when it is their own directory)
+            for f_ in tree.files:
+                rel = os.path.relpath(os.path.join(inp, f_), sb)
+                if rel in fr.before:
+                    res.count("input_files_compared_before_after")
+                    if fr.after.get(rel) != fr.before[rel]:
+                        res.violate("input-file-changed-by-the-run", f"{f_}: {fr.before[rel]} -> {fr.after.get(rel)}", wit2)
             # foreign files untouched
             if outmode == "prepopulated":
                 for fn in FOREIGN:
